@@ -27,6 +27,21 @@ class Edge:
         return "%s -[%s bb%s L%s]-> %s" % (self.src, self.kind, self.block, self.line, self.dst)
 
 
+def const_fn_entries(v, out=None):
+    """function names stored (as fn pointers) anywhere inside an evaluated constant"""
+    if out is None:
+        out = []
+    if isinstance(v, dict):
+        if isinstance(v.get("fn"), str) and len(v) == 1:
+            out.append(v["fn"])
+        for x in v.values():
+            const_fn_entries(x, out)
+    elif isinstance(v, list):
+        for x in v:
+            const_fn_entries(x, out)
+    return out
+
+
 class CallGraph:
     def __init__(self, F):
         self.F = F
@@ -88,6 +103,9 @@ class CallGraph:
                     for o in rv.get("ops", []):
                         if o.get("k") == "const" and o.get("fn"):
                             mentioned.add(o["fn"])
+                        if o.get("k") == "const" and o.get("item") in F.consts:
+                            # a constant table of function pointers (`const ROUTES: [Route; N]`): whoever reads the table may call its entries
+                            mentioned.update(const_fn_entries(F.consts[o["item"]].get("v")))
                         if o.get("k") == "const" and "promoted" in o:
                             pn = "%s::{promoted#%d}" % (o["promoted_of"], o["promoted"])
                             self._add(src, pn, "promoted", b["id"], s["span"]["line"], s["span"]["file"])
